@@ -557,8 +557,8 @@ Qed.
 Lemma add_gradients_raster_inv s mg ms grads g :
   add_gradients s mg ms grads = OK (P_raster, g) ->
   exists mg' ms', make_arb s mg' ms' (raster_sum s grads) (minl (map g_delay grads))
-    (sumQ (map g_first (filter (fun g => Qeq_bool (g_delay g) (minl (map g_delay grads))) grads)))
-    (sumQ (map g_last (filter (fun g => Qeq_bool (g_dur g) (maxl (map g_dur grads))) grads))) = OK g.
+    (sumQ (map g_first (filter (fun g => same_time (g_delay g) (minl (map g_delay grads))) grads)))
+    (sumQ (map g_last (filter (fun g => same_time (g_dur g) (maxl (map g_dur grads))) grads))) = OK g.
 Proof.
   unfold add_gradients. destruct grads as [|g0 [|g1 rest]]; cbv beta iota zeta; try discriminate.
   destruct (same_timing (g0 :: g1 :: rest)).
@@ -582,8 +582,8 @@ Theorem add_raster_path_sum_at_centres_partial s mg ms grads g :
   let cd := minl (map g_delay grads) in
   exists e, g = GExt e /\ eg_delay e = cd /\
     (forall k, nth k (eg_wf e) 0 == sumQ (map (fun gi => nth k (raster_samples s cd gi) 0) grads)) /\
-    eg_first e = sumQ (map g_first (filter (fun g => Qeq_bool (g_delay g) cd) grads)) /\
-    eg_last e = sumQ (map g_last (filter (fun g => Qeq_bool (g_dur g) (maxl (map g_dur grads))) grads)).
+    eg_first e = sumQ (map g_first (filter (fun g => same_time (g_delay g) cd) grads)) /\
+    eg_last e = sumQ (map g_last (filter (fun g => same_time (g_dur g) (maxl (map g_dur grads))) grads)).
 Proof.
   intros H cd. destruct (add_gradients_raster_inv _ _ _ _ _ H) as (mg' & ms' & Hm).
   destruct (make_arb_inv _ _ _ _ _ _ _ _ Hm) as (tt & sd & ->).
@@ -653,8 +653,8 @@ Proof.
   set (mg3 := if ag_arb_passes_limits then _ else _).
   set (ms3 := if ag_arb_passes_limits then _ else _).
   rewrite <- (make_arb_raises_iff s mg3 ms3 _ (minl (map g_delay (g0 :: g1 :: rest)))
-    (sumQ (map g_first (filter (fun g => Qeq_bool (g_delay g) (minl (map g_delay (g0 :: g1 :: rest)))) (g0 :: g1 :: rest))))
-    (sumQ (map g_last (filter (fun g => Qeq_bool (g_dur g) (maxl (map g_dur (g0 :: g1 :: rest)))) (g0 :: g1 :: rest)))) Hd).
+    (sumQ (map g_first (filter (fun g => same_time (g_delay g) (minl (map g_delay (g0 :: g1 :: rest)))) (g0 :: g1 :: rest))))
+    (sumQ (map g_last (filter (fun g => same_time (g_dur g) (maxl (map g_dur (g0 :: g1 :: rest)))) (g0 :: g1 :: rest)))) Hd).
   destruct (make_arb _ _ _ _ _ _ _) eqn:E.
   - split; intros (e & He); discriminate.
   - split; intros _; eexists; reflexivity.
